@@ -48,6 +48,8 @@ GO_RICH = ["-generate_rename", "-generate_append", "-generate_getters", "-genera
 SCHEMAS = {
     "verif-oc": ([S + "/verif-oc.yang"], [S]),
     "verif-clash": ([S + "/verif-clash.yang"], [S]),
+    "verif-action": ([S + "/verif-action.yang"], [S]),
+    "verif-multi": ([S + "/multi/vm-base.yang", S + "/multi/vm-aug-a.yang", S + "/multi/vm-aug-b.yang", S + "/multi/vm-aug-c.yang"], [S + "/multi"]),
     "cts": (["integration_tests/schemaops/yang/ctestschema.yang", "integration_tests/schemaops/yang/ctestschema-rootmod.yang"], ["integration_tests/schemaops/yang"]),
     "uts": (["integration_tests/schemaops/yang/utestschema.yang", "integration_tests/schemaops/yang/refschema.yang",
              "integration_tests/schemaops/yang/ctestschema.yang", "integration_tests/schemaops/yang/ctestschema-rootmod.yang"], ["integration_tests/schemaops/yang"]),
@@ -85,6 +87,8 @@ PROTO_FLAGSETS = {
 QUICK_COMBOS = [
     ("verif-oc", "go", "compress-rich-simple"), ("verif-oc", "go", "uncompressed-rich"), ("verif-oc", "go", "paths"), ("verif-oc", "proto", "proto-hier-compress"),
     ("verif-clash", "go", "compress-rich-simple"), ("verif-clash", "go", "uncompressed-rich"), ("verif-clash", "go", "paths"), ("verif-clash", "proto", "proto-hier-compress"),
+    ("verif-action", "go", "compress-rich-simple"), ("verif-action", "go", "paths"), ("verif-action", "proto", "proto-hier-compress"),
+    ("verif-multi", "go", "compress-rich-simple"), ("verif-multi", "go", "uncompressed-rich"), ("verif-multi", "proto", "proto-hier-compress"),
     ("cts", "go", "compress-rich-simple"), ("uts", "go", "uncompressed-rich"), ("tm-enum-module", "go", "compress-opstate"), ("tm-enum-union", "go", "compress-rich-simple"),
     ("tm-openconfig-simple", "go", "paths-split"), ("tm-openconfig-withlist", "go", "compress-wrapper"), ("oc-options", "go", "compress-excludestate"),
     ("pt-proto-test-a", "proto", "proto-flat"), ("pt-proto-enums", "proto", "proto-hier-compress"), ("tm-openconfig-complex", "proto", "proto-nofakeroot"),
@@ -290,6 +294,7 @@ def generate(info, combo, mapmode, sites, outdir, workdir):
     cmd += files
     env = dict(os.environ)
     env["VERIF_MAP"] = mapmode
+    env["TMPDIR"] = workdir  # glog writes its log files to os.TempDir(): keep them inside the scratch work directory
     statsf = os.path.join(workdir, "stats-%d.json" % os.getpid())
     env["VERIF_STATS"] = statsf
     if sites is not None:
